@@ -15,3 +15,163 @@ Proof.
   intros Hlen Hi. unfold tbl_reset. rewrite (proj2 (Nat.eqb_neq _ _)) by lia. simpl.
   by apply lookup_replicate_2.
 Qed.
+
+(** ** swap_remove *)
+Lemma swap_remove_length {A} (l : list A) i : i < length l -> length (swap_remove i l) = length l - 1.
+Proof.
+  intros Hi. unfold swap_remove. destruct (i =? length l - 1) eqn:He.
+  - rewrite take_length. lia.
+  - destruct (l !! (length l - 1)) eqn:Hl.
+    + rewrite take_length, insert_length. lia.
+    + apply lookup_ge_None in Hl. lia.
+Qed.
+
+Lemma swap_remove_lookup {A} (l : list A) i j :
+  i < length l -> j < length l - 1 ->
+  swap_remove i l !! j = if decide (j = i) then l !! (length l - 1) else l !! j.
+Proof.
+  intros Hi Hj. unfold swap_remove. destruct (i =? length l - 1) eqn:He.
+  - apply Nat.eqb_eq in He. rewrite lookup_take by lia. destruct (decide (j = i)); [lia|done].
+  - apply Nat.eqb_neq in He. destruct (l !! (length l - 1)) as [x|] eqn:Hl.
+    + rewrite lookup_take by lia. destruct (decide (j = i)) as [->|Hne].
+      * by rewrite list_lookup_insert by lia.
+      * by rewrite list_lookup_insert_ne by done.
+    + apply lookup_ge_None in Hl. lia.
+Qed.
+
+Lemma swap_remove_lookup_ge {A} (l : list A) i j :
+  i < length l -> length l - 1 <= j -> swap_remove i l !! j = None.
+Proof. intros Hi Hj. apply lookup_ge_None. rewrite swap_remove_length by done. lia. Qed.
+
+Lemma swap_remove_elem {A} (l : list A) i x :
+  i < length l -> x ∈ swap_remove i l -> x ∈ l.
+Proof.
+  intros Hi Hx. apply elem_of_list_lookup in Hx as [j Hj].
+  assert (j < length l - 1).
+  { apply lookup_lt_Some in Hj. rewrite swap_remove_length in Hj by done. done. }
+  rewrite swap_remove_lookup in Hj by done. destruct (decide (j = i)); by eapply elem_of_list_lookup_2.
+Qed.
+
+(** ** Table invariant: capacity covers the live rows, every row has one cell per
+    column, the tail beyond the live rows is all zero. *)
+Record table_ok (zr : list Z) (t : table) : Prop := {
+  tok_cap : tlen t <= length (t_rows t);
+  tok_width : forall i r, t_rows t !! i = Some r -> length r = length zr;
+  tok_tail : forall i, tlen t <= i -> i < length (t_rows t) -> t_rows t !! i = Some zr;
+}.
+
+Lemma capacity_ge size inc : 0 < inc -> size <= capacity size inc.
+Proof.
+  intros Hinc. unfold capacity. pose proof (Nat.div_mod size inc ltac:(lia)).
+  destruct (_ mod _ =? 0) eqn:Hm; [apply Nat.eqb_eq in Hm; lia|].
+  pose proof (Nat.mod_upper_bound size inc ltac:(lia)). lia.
+Qed.
+
+Lemma tbl_extend_fields capinc zr t n :
+  t_ents (tbl_extend capinc zr t n) = t_ents t /\ t_node (tbl_extend capinc zr t n) = t_node t /\ t_target (tbl_extend capinc zr t n) = t_target t /\ t_active (tbl_extend capinc zr t n) = t_active t /\ t_layouts (tbl_extend capinc zr t n) = t_layouts t.
+Proof. unfold tbl_extend. by destruct (_ <=? _). Qed.
+
+Lemma tbl_extend_rows capinc zr t n :
+  exists k, t_rows (tbl_extend capinc zr t n) = t_rows t ++ replicate k zr /\           (0 < capinc -> tlen t + n <= length (t_rows t) + k).
+Proof.
+  unfold tbl_extend. destruct (tlen t + n <=? length (t_rows t)) eqn:Hle.
+  - apply Nat.leb_le in Hle. exists 0. simpl. rewrite app_nil_r. split; [done|lia].
+  - apply Nat.leb_gt in Hle. eexists. split; [reflexivity|]. intros Hinc.
+    pose proof (capacity_ge (tlen t + n) capinc Hinc). lia.
+Qed.
+
+Lemma table_ok_app zr t k rows' :
+  table_ok zr t -> rows' = t_rows t ++ replicate k zr ->
+  table_ok zr (t <| t_rows := rows' |>).
+Proof.
+  intros [Hc Hw Ht] ->. split; unfold tlen in *; simpl.
+  - rewrite app_length. lia.
+  - intros i r Hi. apply lookup_app_Some in Hi as [Hi|[_ Hi]]; [by eapply Hw|].
+    apply lookup_replicate in Hi as [-> _]. done.
+  - intros i Hi1 Hi2. rewrite app_length, replicate_length in Hi2.
+    destruct (decide (i < length (t_rows t))).
+    + rewrite lookup_app_l by done. by apply Ht.
+    + rewrite lookup_app_r by lia. apply lookup_replicate_2. lia.
+Qed.
+
+Lemma tbl_extend_ok capinc zr t n : table_ok zr t -> table_ok zr (tbl_extend capinc zr t n).
+Proof.
+  intros Hok. destruct (tbl_extend_rows capinc zr t n) as (k & Hr & _).
+  destruct (tbl_extend_fields capinc zr t n) as (He & _).
+  destruct Hok as [Hc Hw Ht]. split; unfold tlen in *; rewrite ?He, ?Hr.
+  - rewrite app_length. lia.
+  - intros i r Hi. apply lookup_app_Some in Hi as [Hi|[_ Hi]]; [by eapply Hw|].
+    apply lookup_replicate in Hi as [-> _]. done.
+  - intros i Hi1 Hi2. rewrite app_length, replicate_length in Hi2.
+    destruct (decide (i < length (t_rows t))).
+    + rewrite lookup_app_l by done. by apply Ht.
+    + rewrite lookup_app_r by lia. apply lookup_replicate_2. lia.
+Qed.
+
+(** Alloc: the entity is appended; the row it gets is the first tail row, i.e. zero. *)
+Lemma tbl_alloc_spec capinc zr t e :
+  0 < capinc -> table_ok zr t ->
+  let '(t', row) := tbl_alloc capinc zr t e in
+  row = tlen t /\ t_ents t' = t_ents t ++ [e] /\ table_ok zr t' /\ (exists k, t_rows t' = t_rows t ++ replicate k zr) /\ t_rows t' !! row = Some zr /\ t_node t' = t_node t /\ t_target t' = t_target t /\ t_active t' = t_active t /\ t_layouts t' = t_layouts t.
+Proof.
+  intros Hinc Hok. unfold tbl_alloc.
+  destruct (tbl_extend_rows capinc zr t 1) as (k & Hr & Hk).
+  destruct (tbl_extend_fields capinc zr t 1) as (He & Hn & Htg & Ha & Hl).
+  pose proof (tbl_extend_ok capinc zr t 1 Hok) as Hok1.
+  set (t1 := tbl_extend capinc zr t 1) in *. specialize (Hk Hinc).
+  split; [done|]. split; [by rewrite He|]. split.
+  - destruct Hok1 as [Hc Hw Ht]. split; unfold tlen in *; simpl.
+    + rewrite app_length, He, Hr, app_length, replicate_length. simpl. lia.
+    + done.
+    + intros i Hi1 Hi2. apply Ht; [|done]. rewrite app_length in Hi1. lia.
+  - split; [by exists k|]. split; [|done]. simpl.
+    destruct Hok1 as [Hc Hw Ht]. apply Ht; unfold tlen in *; [by rewrite He|].
+    rewrite Hr, app_length, replicate_length. lia.
+Qed.
+
+(** Remove (swap-remove): row [row] receives the last row, the last row is zeroed. *)
+Lemma tbl_remove_spec zr t row :
+  table_ok zr t -> row < tlen t ->
+  let '(t', swapped) := tbl_remove zr t row in
+  swapped = negb (row =? tlen t - 1) /\ t_ents t' = swap_remove row (t_ents t) /\ tlen t' = tlen t - 1 /\ table_ok zr t' /\ length (t_rows t') = length (t_rows t) /\ (forall i, i < tlen t - 1 -> t_rows t' !! i = if decide (i = row) then t_rows t !! (tlen t - 1) else t_rows t !! i) /\ t_node t' = t_node t /\ t_target t' = t_target t /\ t_active t' = t_active t /\ t_layouts t' = t_layouts t.
+Proof.
+  intros [Hc Hw Ht] Hrow. unfold tbl_remove. simpl.
+  set (last := tlen t - 1).
+  set (rows1 := if row =? last then t_rows t else match t_rows t !! last with Some r => <[row:=r]> (t_rows t) | None => t_rows t end).
+  assert (Hlen1 : length rows1 = length (t_rows t)).
+  { unfold rows1. destruct (row =? last); [done|]. destruct (t_rows t !! last); [by rewrite insert_length|done]. }
+  assert (Hlast : last < length (t_rows t)) by (unfold last; lia).
+  assert (Hr1 : forall i, i < last -> rows1 !! i = if decide (i = row) then t_rows t !! last else t_rows t !! i).
+  { intros i Hi. unfold rows1. destruct (row =? last) eqn:He.
+    - apply Nat.eqb_eq in He. destruct (decide (i = row)); [lia|done].
+    - destruct (t_rows t !! last) as [r|] eqn:Hl; [|apply lookup_ge_None in Hl; lia].
+      destruct (decide (i = row)) as [->|Hne]; [rewrite list_lookup_insert; [done|lia]|by rewrite list_lookup_insert_ne]. }
+  split; [done|]. split; [done|]. split; [unfold tlen; simpl; by rewrite swap_remove_length|].
+  split; [|split; [by rewrite insert_length|split; [|done]]].
+  - split; unfold tlen; simpl.
+    + rewrite swap_remove_length, insert_length, Hlen1 by done. unfold tlen in *. lia.
+    + intros i r Hi. destruct (decide (i = last)) as [->|Hne].
+      * rewrite list_lookup_insert in Hi by lia. by injection Hi as <-.
+      * rewrite list_lookup_insert_ne in Hi by done. unfold rows1 in Hi.
+        destruct (row =? last); [by eapply Hw|]. destruct (t_rows t !! last) as [rl|] eqn:Hl; [|by eapply Hw].
+        destruct (decide (i = row)) as [->|Hne2].
+        -- rewrite list_lookup_insert in Hi by lia. injection Hi as <-. by eapply Hw.
+        -- rewrite list_lookup_insert_ne in Hi by done. by eapply Hw.
+    + intros i Hi1 Hi2. rewrite swap_remove_length in Hi1 by done. rewrite insert_length, Hlen1 in Hi2.
+      destruct (decide (i = last)) as [->|Hne]; [rewrite list_lookup_insert; [done|lia]|].
+      rewrite list_lookup_insert_ne by done.
+      assert (tlen t <= i) by (unfold last, tlen in *; lia).
+      unfold rows1. destruct (row =? last); [by apply Ht|]. destruct (t_rows t !! last); [|by apply Ht].
+      rewrite list_lookup_insert_ne by (unfold tlen in *; lia). by apply Ht.
+  - intros i Hi. rewrite list_lookup_insert_ne by (unfold last in *; lia). by apply Hr1.
+Qed.
+
+Lemma tbl_reset_ok zr t : table_ok zr t -> table_ok zr (tbl_reset zr t) /\ t_ents (tbl_reset zr t) = [] /\ t_node (tbl_reset zr t) = t_node t /\ t_target (tbl_reset zr t) = t_target t /\ t_active (tbl_reset zr t) = t_active t.
+Proof.
+  intros [Hc Hw Ht]. unfold tbl_reset. destruct (tlen t =? 0) eqn:He.
+  - apply Nat.eqb_eq in He. split; [done|]. split; [|done]. unfold tlen in He. by destruct (t_ents t).
+  - split; [|done]. split; unfold tlen; simpl.
+    + lia.
+    + intros i r Hi. apply lookup_replicate in Hi as [-> _]. done.
+    + intros i _ Hi. rewrite replicate_length in Hi. by apply lookup_replicate_2.
+Qed.
